@@ -509,8 +509,9 @@ for h, tier in [("k_dep_read_meta_fields", "quick"), ("k_dep_read_header_fields"
         functions=["bitstream_io::BitReader (dependency, BigEndian)"],
         contract="the real bitstream-io BitReader and the dependency contract harness/bits.rs (under which every other obligation runs the crate) return the same values, the same alignment answers and fail at the same point, for the same script of reads",
         timeout=900)
-for h, tier in [("k_dep_write_signed_w32", "quick"), ("k_dep_write_unsigned_fields", "thorough"), ("k_dep_write_signed_w1", "thorough"), ("k_dep_write_unary_0", "thorough")]:
-    add("K-" + h[2:], ["C02"], "verif_k::dep::" + h, tier=tier, bound="scripts of 1-3 fields (4+12 bit unsigned; 1- and 32-bit two's complement + alignment; empty unary run + 3-bit field + alignment); all values. Longer scripts and other widths do not finish",
+# k_dep_write_signed_w1 and k_dep_write_unary_0 (12 min each when run alone) were registered and removed: under load they time out -- unstable, so not claimed
+for h, tier in [("k_dep_write_signed_w32", "quick"), ("k_dep_write_unsigned_fields", "thorough")]:
+    add("K-" + h[2:], ["C02"], "verif_k::dep::" + h, tier=tier, bound="scripts of 1-2 fields (4+12 bit unsigned; 32-bit two's complement + alignment); all values. Longer scripts, other widths and unary runs do not finish reliably",
         functions=["bitstream_io::BitWriter (dependency, BigEndian)"],
         contract="the real bitstream-io BitWriter and the dependency contract harness/bits.rs accept / reject the same values and produce the same bytes for the same script of writes",
         timeout=1500)
